@@ -7,6 +7,7 @@ import (
 	"strings"
 
 	"golang.org/x/tools/go/packages"
+	"golang.org/x/tools/go/ssa"
 
 	. "verif/checker/engine"
 )
@@ -319,4 +320,254 @@ func findSortComparator(p *packages.Package, body ast.Node) (*ast.FuncLit, *ast.
 		return true
 	})
 	return lit, call
+}
+
+// ---------------------------------------------------------------------------
+// SSA-based extraction (independent of how the comparator is spelled: if
+// chains, tagless switches, negated conditions, a comparator bound to a name)
+
+// sortComparatorSSA finds a call to sort.Slice / sort.SliceStable /
+// slices.SortFunc / slices.SortStableFunc in fn and returns the comparator
+// function and the call.
+func sortComparatorSSA(fn *ssa.Function) (*ssa.Function, ssa.CallInstruction) {
+	for _, ci := range Calls(fn, false) {
+		switch CalleeName(ci.Common()) {
+		case "sort.Slice", "sort.SliceStable", "slices.SortFunc", "slices.SortStableFunc":
+			args := ci.Common().Args
+			for x := range BackSlice(args[len(args)-1], SliceOpts{}) {
+				switch x := x.(type) {
+				case *ssa.MakeClosure:
+					if f, ok := x.Fn.(*ssa.Function); ok {
+						return f, ci
+					}
+				case *ssa.Function:
+					return x, ci
+				}
+			}
+		}
+	}
+	return nil, nil
+}
+
+// comparatorChainSSA walks a comparator's control flow from its entry along
+// the "equal so far" edges and returns the field paths compared, in order.
+// why is non-empty when the comparator has a shape it does not understand.
+func comparatorChainSSA(cmp *ssa.Function) (chain []string, why string) {
+	if len(cmp.Params) != 2 {
+		return nil, "comparator does not have two parameters"
+	}
+	isIntParam := func(p *ssa.Parameter) bool {
+		b, ok := p.Type().Underlying().(*types.Basic)
+		return ok && b.Info()&types.IsInteger != 0
+	}
+	byIndex := isIntParam(cmp.Params[0]) && isIntParam(cmp.Params[1])
+	var path func(v ssa.Value, depth int) (string, bool)
+	path = func(v ssa.Value, depth int) (string, bool) {
+		if depth > 12 {
+			return "", false
+		}
+		field := func(x ssa.Value, idx int) (string, bool) {
+			base, ok := path(x, depth+1)
+			if !ok {
+				return "", false
+			}
+			_, f := FieldOf(x.Type(), idx)
+			if f == nil {
+				return "", false
+			}
+			if f.Embedded() {
+				return base, true
+			}
+			return base + "." + f.Name(), true
+		}
+		switch x := v.(type) {
+		case *ssa.Alloc:
+			// a local variable holding (a part of) an element: di := diagnostics[i]; pi := di.Position
+			var src ssa.Value
+			n := 0
+			for _, r := range *x.Referrers() {
+				if st, ok := r.(*ssa.Store); ok && st.Addr == ssa.Value(x) {
+					src = st.Val
+					n++
+				}
+			}
+			if n == 1 {
+				return path(src, depth+1)
+			}
+			return "", false
+		case *ssa.Parameter:
+			if !byIndex {
+				if x == cmp.Params[0] {
+					return "L", true
+				}
+				if x == cmp.Params[1] {
+					return "R", true
+				}
+			}
+		case *ssa.IndexAddr:
+			if byIndex {
+				if x.Index == ssa.Value(cmp.Params[0]) {
+					return "L", true
+				}
+				if x.Index == ssa.Value(cmp.Params[1]) {
+					return "R", true
+				}
+			}
+		case *ssa.Index:
+			if byIndex {
+				if x.Index == ssa.Value(cmp.Params[0]) {
+					return "L", true
+				}
+				if x.Index == ssa.Value(cmp.Params[1]) {
+					return "R", true
+				}
+			}
+		case *ssa.UnOp:
+			if x.Op == token.MUL {
+				// a load; a load from a local cell that was assigned an element (di := diagnostics[i])
+				if al, ok := x.X.(*ssa.Alloc); ok {
+					var src ssa.Value
+					n := 0
+					for _, r := range *al.Referrers() {
+						if st, ok := r.(*ssa.Store); ok && st.Addr == ssa.Value(al) {
+							src = st.Val
+							n++
+						}
+					}
+					if n == 1 {
+						return path(src, depth+1)
+					}
+					return "", false
+				}
+				return path(x.X, depth+1)
+			}
+		case *ssa.FieldAddr:
+			return field(x.X, x.Field)
+		case *ssa.Field:
+			return field(x.X, x.Field)
+		case *ssa.ChangeType:
+			return path(x.X, depth+1)
+		case *ssa.Convert:
+			return path(x.X, depth+1)
+		case *ssa.MakeInterface:
+			return path(x.X, depth+1)
+		case *ssa.Call:
+			args := CallArgs(&x.Call)
+			if x.Call.IsInvoke() && len(x.Call.Args) == 0 {
+				return path(x.Call.Value, depth+1)
+			}
+			if len(args) == 1 {
+				return path(args[0], depth+1) // a wrapper: case folding, String()
+			}
+		}
+		return "", false
+	}
+	pair := func(a, b ssa.Value) (string, bool) {
+		pa, ok1 := path(a, 0)
+		pb, ok2 := path(b, 0)
+		if !ok1 || !ok2 {
+			return "", false
+		}
+		return pairPath(pa, pb)
+	}
+	// a comparison of the same path of both elements: a.f OP b.f, or cmp.Compare(a.f, b.f) OP 0
+	compared := func(v ssa.Value) (string, token.Token, bool) {
+		bo, ok := v.(*ssa.BinOp)
+		if !ok {
+			if call, isCall := v.(*ssa.Call); isCall && len(call.Call.Args) == 2 {
+				if p, ok := pair(call.Call.Args[0], call.Call.Args[1]); ok {
+					return p, token.ILLEGAL, true
+				}
+			}
+			return "", 0, false
+		}
+		if call, isCall := bo.X.(*ssa.Call); isCall && len(call.Call.Args) == 2 {
+			if _, isK := ConstInt(bo.Y); isK {
+				if p, ok := pair(call.Call.Args[0], call.Call.Args[1]); ok {
+					return p, bo.Op, true
+				}
+			}
+		}
+		if p, ok := pair(bo.X, bo.Y); ok {
+			return p, bo.Op, true
+		}
+		return "", 0, false
+	}
+	blk := cmp.Blocks[0]
+	seen := map[*ssa.BasicBlock]bool{}
+	for steps := 0; steps < 200; steps++ {
+		if seen[blk] {
+			return nil, "the comparator loops"
+		}
+		seen[blk] = true
+		switch t := blk.Instrs[len(blk.Instrs)-1].(type) {
+		case *ssa.Jump:
+			blk = blk.Succs[0]
+		case *ssa.Return:
+			if len(t.Results) != 1 {
+				return nil, "unexpected return"
+			}
+			r := t.Results[0]
+			if phi, ok := r.(*ssa.Phi); ok {
+				_ = phi
+				return nil, "the comparator returns a merged value"
+			}
+			if _, isConst := r.(*ssa.Const); isConst {
+				return chain, ""
+			}
+			if p, _, ok := compared(r); ok {
+				chain = append(chain, p)
+				return chain, ""
+			}
+			return nil, "unrecognised final comparison " + r.String()
+		case *ssa.If:
+			cond, neg := StripNot(t.Cond)
+			p, op, ok := compared(cond)
+			if !ok {
+				return nil, "unrecognised condition " + cond.String()
+			}
+			chain = append(chain, p)
+			// follow the edge on which the two are equal
+			var eqOnTrue bool
+			switch op {
+			case token.EQL:
+				eqOnTrue = true
+			case token.NEQ:
+				eqOnTrue = false
+			default:
+				return nil, "an ordering test (<, >) used as a branch condition"
+			}
+			if neg {
+				eqOnTrue = !eqOnTrue
+			}
+			if eqOnTrue {
+				blk = blk.Succs[0]
+			} else {
+				blk = blk.Succs[1]
+			}
+		default:
+			return nil, "unexpected control flow in the comparator"
+		}
+	}
+	return nil, "comparator too long"
+}
+
+// sortChainOf returns the comparator chain of the sort in fn (named rel in
+// package pkgRel), preferring the SSA extraction and falling back to the
+// syntactic one (which aborts the rule on idioms it does not know).
+func sortChainOf(c *Ctx, pkgRel, name string) ([]string, token.Pos) {
+	fn := c.Func(pkgRel, name)
+	if cmp, call := sortComparatorSSA(fn); cmp != nil {
+		if chain, why := comparatorChainSSA(cmp); why == "" {
+			return chain, call.Pos()
+		} else {
+			c.Note("comparator of %s: SSA extraction gave up (%s); using the syntactic extraction", name, why)
+		}
+	}
+	fd, p := c.Decl(pkgRel, name)
+	lit, call := findSortComparator(p, fd.Body)
+	if lit == nil {
+		c.Undecided("%s no longer sorts with a recognisable comparator", name)
+	}
+	return comparatorChain(c, p, lit), call.Pos()
 }
